@@ -8,7 +8,12 @@ cd $V
 export GOFLAGS=-mod=mod GOPROXY=off GOSUMDB=off GOTOOLCHAIN=local
 B=$V/.build
 mkdir -p $B/plain $B/sched $B/run evidence replays
-cat /repo/go.sum /repo/loader/go.sum 2>/dev/null | sort -u > $V/go.sum
+R=${VERIF_REPO:-/repo}
+cat $R/go.sum $R/loader/go.sum 2>/dev/null | sort -u > $V/go.sum
+if [ "$R" != /repo ]; then
+  # maintainer-side relocation (a snapshot of the repository): only ever in a snapshot of /verif
+  [ "$V" != /verif ] && go mod edit -replace github.com/bytedance/sonic=$R -replace github.com/bytedance/sonic/loader=$R/loader
+fi
 go build -o $B/mkoverlay ./tools/mkoverlay || exit 1
 for f in plain sched; do
   $B/mkoverlay $f $B/$f || exit 1
